@@ -389,6 +389,136 @@ def _(c):
     c.modifies()
 
 
+# The work-list loop of SimulateCellLineage is NOT under contract: a bounded exploration (one root, three processed cells, helpers
+# inlined) was tried and took more than 45 minutes of path replay, so it was withdrawn.  Its loop body consists of the calls proved
+# here: interface.partition (dispatch), truncate_timepoints_less_than, simulate_daughter_cells (links, list alignment), and
+# simulate_cell_list for the roots.
+
+# ------------------------------------------------------------------------------------------------ bodies of the lineage interface
+# (verify_only variants: the loops over the C pointer vectors are proved against the abstract symbols of the virtual rule /
+#  event / propensity methods; the abstract contracts above stay in force at the call sites of the single-cell loop)
+from bsvc.contracts import Contract
+from bsvc import contracts as C
+
+
+def _abstract(module, qualname, ensures, modifies=()):
+    @fuc(module, qualname, props=PROPS)
+    def _(c):
+        c.abstract = True
+        c.verify_body = False
+        c.ensures(ensures)
+        c.modifies(*modifies)
+        c.note('abstract contract of a virtual lineage rule / event method: a function of its arguments')
+
+
+_abstract('lineage', 'DeathRule.check_dead', 'result == ifun("check_dead", self, state, params, time, volume, initial_time, initial_volume)')
+_abstract('lineage', 'DivisionRule.check_divide', 'result == ifun("check_divide", self, state, params, time, volume, initial_time, initial_volume)')
+_abstract('lineage', 'VolumeRule.get_volume', 'result == ufun("rule_volume", self, state, params, volume, time, dt)')
+_abstract('lineage', 'VolumeEvent.get_volume', 'result == ufun("event_volume", self, state, params, volume, time)')
+
+
+def body(qualname, fn):
+    c = Contract('lineage', L + qualname, PROPS, variant='body')
+    fn(c)
+    c.opt(verify_only=True)
+    C.REGISTRY[c.key] = c
+    C.ORDER.append(c.key)
+
+
+def _props(c):
+    c.requires('len(propensity_destination) >= self.num_reactions + self.num_lineage_propensities and len(self.c_propensities[0]) >= self.num_reactions '
+               'and len(self.c_lineage_propensities[0]) >= self.num_lineage_propensities')
+    R = 'ufun("rate_STOVOL", self.c_propensities[0][%s], state, self.c_param_values, volume, time)'
+    E = 'ufun("rate_STOVOL", self.c_lineage_propensities[0][%s], state, self.c_param_values, volume, time)'
+    c.loop(0).invariant('forall(lambda q: implies(0 <= q and q < ind, propensity_destination[q] == %s))' % (R % 'q'), label='reactions') \
+             .invariant('forall(lambda q: implies(q >= ind, propensity_destination[q] == old(propensity_destination[q])))', label='rest')
+    c.loop(1).invariant('forall(lambda q: implies(0 <= q and q < self.num_reactions, propensity_destination[q] == %s))' % (R % 'q'), label='reactions-kept') \
+             .invariant('forall(lambda q: implies(0 <= q and q < ind, propensity_destination[self.num_reactions + q] == %s))' % (E % 'q'), label='events') \
+             .invariant('forall(lambda q: implies(q >= self.num_reactions + ind, propensity_destination[q] == old(propensity_destination[q])))', label='rest')
+    c.ensures('forall(lambda q: implies(0 <= q and q < self.num_reactions, propensity_destination[q] == %s))' % (R % 'q'),
+              label='reactions-first-in-stochastic-volume-form')
+    c.ensures('forall(lambda q: implies(0 <= q and q < self.num_lineage_propensities, propensity_destination[self.num_reactions + q] == %s))' % (E % 'q'),
+              label='then-the-event-propensities-in-registration-order')
+    c.modifies('propensity_destination')
+
+
+body('compute_lineage_propensities', _props)
+
+
+def _first(method, field, count, sym, callee):
+    def f(c):
+        c.requires('len(self.%s[0]) >= self.%s' % (field, count))
+        V = 'ifun("%s", self.%s[0][%%s], state, self.c_param_values, time, volume, start_time, start_volume)' % (sym, field)
+        c.loop(0).invariant('forall(lambda q: implies(0 <= q and q < ind, not (%s > 0)))' % (V % 'q'), label='none-fired-so-far')
+        c.ensures('-1 <= result and result < self.%s' % count, label='index-in-range')
+        c.ensures('implies(result >= 0, %s > 0 and forall(lambda q: implies(0 <= q and q < result, not (%s > 0))))' % (V % 'result', V % 'q'),
+                  label='first-rule-that-fires')
+        c.ensures('implies(result == -1, forall(lambda q: implies(0 <= q and q < self.%s, not (%s > 0))))' % (count, V % 'q'), label='minus-one-iff-none-fires')
+        c.modifies()
+    body(method, f)
+
+
+_first('apply_death_rules', 'c_death_rules', 'num_death_rules', 'check_dead', 'check_dead')
+_first('apply_division_rules', 'c_division_rules', 'num_division_rules', 'check_divide', 'check_divide')
+
+
+def _vevent(c):
+    c.requires('0 <= event_index and event_index < len(self.c_volume_events[0])')
+    c.ensures('result == ufun("event_volume", self.c_volume_events[0][event_index], state, self.c_param_values, current_volume, current_time)',
+              label='the-event-named-by-the-index')
+    c.modifies()
+
+
+body('apply_volume_event', _vevent)
+
+
+# volume rules are chained: vfold(rules, 0, ..) = the volume at entry; vfold(rules, n, ..) = rule n-1 applied to vfold(rules, n-1, ..)
+from bsvc import axioms, speclib
+from bsvc.values import to_term
+
+_I0, _I1 = tm.mk_int(0), tm.mk_int(1)
+
+
+def _vfold_ax(t, ctx):
+    rules, n, st, pa, v0, time, dt = t.args[1:8]
+    prev = tm.app('vfold', (rules, tm.sub(n, _I1), st, pa, v0, time, dt), REAL)
+    step = tm.app('rule_volume', (tm.select(rules, tm.sub(n, _I1)), st, pa, prev, time, dt), REAL)
+    return [tm.implies(tm.le(n, _I0), tm.eq(t, v0)), tm.implies(tm.gt(n, _I0), tm.eq(t, step))]
+
+
+axioms.register('vfold', _vfold_ax, 'vfold(rules,0,..,v,..)=v; vfold(rules,n,..)=rule_volume(rules[n-1], .., vfold(rules,n-1,..), ..)')
+
+
+@speclib.spec('vfold')
+def _vfold(ex, rules, n, st, pa, v0, time, dt):
+    g = lambda a: a.term if isinstance(a, Arr) else to_term(a)
+    return tm.app('vfold', (g(rules), to_term(n), g(st), g(pa), tm.to_real(to_term(v0)), tm.to_real(to_term(time)), tm.to_real(to_term(dt))), REAL)
+
+
+def _vrules(c):
+    c.requires('len(self.c_volume_rules[0]) >= self.num_volume_rules')
+    c.loop(0).invariant('volume == vfold(self.c_volume_rules[0], ind, state, self.c_param_values, old(volume), time, dt)', label='chained-so-far')
+    c.ensures('result == vfold(self.c_volume_rules[0], self.num_volume_rules, state, self.c_param_values, old(volume), time, dt)',
+              label='volume-rules-chained-in-registration-order-with-the-given-dt')
+    c.modifies()
+
+
+body('apply_volume_rules', _vrules)
+
+
+# ------------------------------------------------------------------------------------------------ the daughters' time grid
+@fuc('lineage', 'LineageSSASimulator.truncate_timepoints_less_than', props=['C19'])
+def _(c):
+    c.array('array', ndim=1, elem='Real')
+    c.loop(0).invariant('forall(lambda k: implies(0 <= k and k < j, array[k] < value))', label='earlier-points-are-before-the-division')
+    c.ensures('len(result) <= len(array)', label='a-suffix')
+    c.ensures('forall(lambda m: implies(0 <= m and m < len(result), result[m] == array[len(array) - len(result) + m]))', label='same-points-in-order')
+    c.ensures('forall(lambda k: implies(0 <= k and k < len(array) - len(result), array[k] < value))', label='dropped-points-are-before-the-division-time')
+    c.ensures('implies(len(result) > 0, result[0] >= value)', label='first-kept-point-is-not-before-the-division-time')
+    c.ensures('implies(len(result) == 0, forall(lambda k: implies(0 <= k and k < len(array), array[k] < value)))', label='empty-only-if-every-point-is-earlier')
+    c.modifies()
+
+
 # ------------------------------------------------------------------------------------------------ the lineage work list (BOUNDED)
 # One root cell; the work-list loop is explored for at most 3 processed cells (root and its two daughters), longer lineages are cut
 # at the bound and reported as bounded in the evidence.  Inside the bound every number is symbolic.
